@@ -270,12 +270,12 @@ Proof.
   - intros [h H].
     destruct (plen =? of_be16 b4 b5) eqn:E1; cbn [negb] in H; [|discriminate].
     match type of H with (if negb ?c then _ else _) = _ => destruct c eqn:E2 end; cbn [negb] in H; [|discriminate].
-    split; [lia|]. clearbody S f. unfold oc_norm, u16 in *. split; [|apply Z.eqb_eq]; split_ifs; lia.
+    split; [lia|]. clearbody S f. unfold oc_norm, u16 in *. split; [|apply Z.eqb_eq]; split_ifs_all; lia.
   - intros (H1 & H2 & H3). apply Z.eqb_eq in H3.
     replace (plen =? of_be16 b4 b5) with true by lia. cbn [negb].
     match goal with |- exists _, (if negb ?c then _ else _) = _ => replace c with true end.
     + cbn [negb]. eauto.
-    + symmetry. clearbody S f. unfold oc_norm, u16 in *. apply Z.eqb_eq. split_ifs; lia.
+    + symmetry. clearbody S f. unfold oc_norm, u16 in *. apply Z.eqb_eq. split_ifs_all; lia.
 Qed.
 
 Lemma udp_corruption_detected : forall bs bs' plen sa da h, bytes bs -> bytes bs' -> u32 sa -> u32 da ->
@@ -315,7 +315,7 @@ Proof.
   assert (Hn : u16 (n + 8)) by (unfold u16; lia).
   pose proof (udp_cksum_u16 true sp dp (n + 8) sa da text Hsp Hdp Hn Hsa Hda Ht) as Hc.
   split; [reflexivity|].
-  unfold be16 at 1 2 3 4. cbn [app nth].
+  unfold be16. cbn [app nth].
   rewrite of_be16_be16 by assumption.
   split.
   - rewrite verifies_wsum.
@@ -353,7 +353,9 @@ Proof.
     repeat (apply bytes_cons; split; [unfold byte; lia|]). constructor. }
   assert (Hc0 : c0 = 65535 - oc_norm (udp_others sp dp len sa da text)).
   { subst c0. unfold rfc1071_checksum. rewrite oc_sum_norm by (apply words_u16; assumption).
-    f_equal. f_equal. subst zeroed. unfold be16 at 1 2 3. cbn [app].
+    change (zsum (words (pseudo sa da 17 len ++ zeroed ++ text)))
+      with (wsum (pseudo sa da 17 len ++ zeroed ++ text)).
+    f_equal. f_equal. subst zeroed. unfold be16. cbn [app].
     replace (pseudo sa da 17 len) with (pseudo sa da 17 (of_be16 (len / 256 mod 256) (len mod 256)))
       by (rewrite of_be16_be16 by assumption; reflexivity).
     rewrite udp_total_sum by (assumption || (unfold byte; lia)).
@@ -361,7 +363,7 @@ Proof.
   assert (Hpos : 0 < udp_others sp dp len sa da text) by (apply udp_others_pos; assumption).
   pose proof (oc_norm_range _ (Z.lt_le_incl _ _ Hpos)) as Rn.
   assert (Rc : u16 c) by (subst c; unfold u16; destruct (c0 =? 0); lia).
-  unfold be16 at 1 2 3 4. cbn [app]. rewrite udp_decode_8.
+  unfold be16. cbn [app]. rewrite udp_decode_8.
   rewrite !of_be16_be16 by assumption.
   rewrite Z.eqb_refl. cbn [negb].
   rewrite udp_chain_norm by assumption.
@@ -370,4 +372,42 @@ Proof.
   symmetry. apply Z.eqb_eq. subst c. rewrite Hc0.
   generalize dependent (udp_others sp dp len sa da text). intros S _ Hpos Rn.
   unfold oc_norm in *. split_ifs; lia.
+Qed.
+
+(* builder output = RFC 768 bytes, and the decoder reads the same fields back *)
+Lemma udp_build_matches_rfc : forall ck sa sp da dp text,
+  u32 sa -> u16 sp -> u32 da -> u16 dp -> bytes text -> Z.of_nat (length text) + 8 <= 65535 ->
+  exists c, u16 c /\
+    udp_build ck sa sp da dp text (Z.of_nat (length text)) =
+      Ok (rfc768_bytes sp dp (Z.of_nat (length text) + 8) c) /\
+    udp_decode ck (rfc768_bytes sp dp (Z.of_nat (length text) + 8) c ++ text)
+               (Z.of_nat (length text) + 8) sa da = Ok (mk_udp sp dp (Z.of_nat (length text) + 8) c).
+Proof.
+  intros ck sa sp da dp text Hsa Hsp Hda Hdp Ht Hlen.
+  destruct (udp_decode_encode ck sa sp da dp text Hsa Hsp Hda Hdp Ht Hlen) as (c & Hc & Hb & Hd).
+  exists c. split; [exact Hc|].
+  rewrite <- udp_matches_rfc by (assumption || (unfold u16; lia)). split; assumption.
+Qed.
+
+(* every single-bit corruption of an accepted datagram is rejected *)
+Lemma udp_single_flip_rejected : forall bs plen sa da h i j, bytes bs -> u32 sa -> u32 da ->
+  udp_decode true bs plen sa da = Ok h -> (i < length bs)%nat -> 0 <= j < 8 ->
+  forall h', udp_decode true (flip_at bs i j) plen sa da <> Ok h'.
+Proof.
+  intros bs plen sa da h i j Hb Hsa Hda H Hi Hj.
+  eapply udp_corruption_detected; try eassumption.
+  - apply flip_at_bytes; assumption.
+  - pose proof (single_flip_changes_sum bs i j 0 Hi Hb Hj) as S. cbn [Z.add] in S. exact S.
+Qed.
+Lemma udp_double_flip_rejected : forall bs plen sa da h i1 j1 i2 j2, bytes bs -> u32 sa -> u32 da ->
+  udp_decode true bs plen sa da = Ok h ->
+  (i1 < length bs)%nat -> (i2 < length bs)%nat -> 0 <= j1 < 8 -> 0 <= j2 < 8 -> (i1 <> i2 \/ j1 <> j2) ->
+  ~ (bit_exp i1 j1 = bit_exp i2 j2 /\ Z.testbit (nth i1 bs 0) j1 <> Z.testbit (nth i2 bs 0) j2) ->
+  forall h', udp_decode true (flip_at (flip_at bs i1 j1) i2 j2) plen sa da <> Ok h'.
+Proof.
+  intros bs plen sa da h i1 j1 i2 j2 Hb Hsa Hda H Hi1 Hi2 Hj1 Hj2 Hne Hnc.
+  eapply udp_corruption_detected; try eassumption.
+  - apply flip_at_bytes; [apply flip_at_bytes|]; assumption.
+  - pose proof (double_flip_unchanged_iff bs i1 j1 i2 j2 0 Hi1 Hi2 Hb Hj1 Hj2 Hne) as D. cbn [Z.add] in D.
+    intro E. apply Hnc. apply D. exact E.
 Qed.
